@@ -12,7 +12,7 @@ Fixpoint trim_right_rev (c : byte) (r : bytes) : bytes :=
   end.
 Definition trim_right (c : byte) (b : bytes) : bytes := rev (trim_right_rev c (rev b)).
 
-(* the loop: for i := 0; i < n; i++ { index := 18*i; flags := Uint16(b[index+16:index+18]); ... b[0:16] ... } *)
+(* the loop: for i := 0; i < n; i++ { index := 18*i; flags := Uint16(b[index+16:index+18]); ... b[index:index+16] ... } *)
 Fixpoint nna_loop (b : slice) (todo : nat) (i : nat) (names : list bytes) : res (list bytes) :=
   match todo with
   | O => Ok names
@@ -20,7 +20,7 @@ Fixpoint nna_loop (b : slice) (todo : nat) (i : nat) (names : list bytes) : res 
       let index := (18 * i)%nat in
       flags <- be16_at b (index + 16) ;;
       if N.land flags 32768 =? 0 then
-        first <- sl b 0 16 ;;
+        first <- sl b index (index + 16) ;;
         let nn := trim_right 32 (trim_right 0 (view first)) in
         nna_loop b t (S i) (names ++ [nn])
       else nna_loop b t (S i) names
@@ -32,7 +32,7 @@ Definition parseNodeNameArray (b : slice) : res (list bytes) :=
     n0 <- idx b 0 ;;
     let n := N.to_nat n0 in
     b1 <- slfrom b 1 ;;
-    if Nat.ltb (len b1) (n * 16 + 2) then Err EFrameLen
+    if Nat.ltb (len b1) (n * 18) then Err EFrameLen
     else nna_loop b1 n 0 [].
 
 Definition processNBNSNodeStatusResponse (b : slice) : res (list bytes) :=
